@@ -160,6 +160,21 @@ def cases(tier, rng):
         g = raw_bmp(bits, w, h, px, rng)
         yield Case(f"!bmp.use {hexs(g)}", check=check_use, tag="solver-wrap")
         yield Case(f"!ts.use {hexs(g)}", check=check_use, tag="solver-wrap-as-tileset")
+    # coordinated: geometry whose true pixel size is k*2^32 + (a few bytes), with exactly those few bytes present
+    # (a cross-check done in 32 bits would accept them; the row loops would then run far past the buffer)
+    for bits, w in ((8, 4), (8, 5), (8, 8), (8, 16), (4, 8), (4, 64), (1, 32), (1, 64), (8, 1024), (8, 0x40000001), (1, 0x7FFFFFFF), (8, 65536)):
+        p_ = pitch(bits, w)
+        for j in (0, 1, 2):
+            for sign in (1, -1):
+                if (1 << 32) % p_ == 0:
+                    hh = (1 << 32) // p_ + j
+                    if 0 < hh < (1 << 31) and j * p_ <= 4096:
+                        yield Case(f"!bmp.use {hexs(raw_bmp(bits, w, sign * hh, j * p_, rng))}", check=check_use, tag="wrap-mod-2^32")
+                else:
+                    # smallest h with p_*h >= 2^32; the bytes present are p_*h - 2^32
+                    hh = -(-(1 << 32) // p_) + j
+                    if hh < (1 << 31) and p_ * hh - (1 << 32) < 4096:
+                        yield Case(f"!bmp.use {hexs(raw_bmp(bits, w, sign * hh, p_ * hh - (1 << 32), rng))}", check=check_use, tag="wrap-mod-2^32")
     for bits in (1, 4, 8, 16, 24, 32):
         for w in (0, 1, 2, 8, 64, -1, -8, 0x7FFFFFFF, INT_MIN):
             for px in (0, 4):
